@@ -28,26 +28,40 @@ let handle kind c =
        (k-1)-th timer fired; exactly one timer is armed after every rotate; the
        increments of stage k are in the file of span k *)
     let now0 = next_z c in
+    let now0_ns = next_z c in
     let w = next_z c in
     let stages = next_int c in
     let cur_now = ref now0 in
+    let cur_ns = ref now0_ns in
+    let giga = z_of_int 1000000000 in
     let expect = ref [] in
     let chain_ok = ref true in
     let seen = ref [] in
     let fires = ref [] in
     for k = 0 to stages do
       let npend = next_int c in
+      let delay = next_z c in
       let b = next_z c in let e = next_z c in
       let n = next_z c in
       let s = counter_span !cur_now w in
       seen := (b, e) :: !seen;
+      (* the delay the timer is armed with, in ns: until the recorded end, at least one minute *)
+      if npend >= 1 then begin
+        let now_ns = Z.add (Z.mul !cur_now giga) !cur_ns in
+        let want = timer_delay (Z.mul (z_of_int 60) giga) now_ns (Z.mul (Stdlib.snd s) giga) in
+        check_eq (Printf.sprintf "timer-delay-%d" k) tok_of_z want delay;
+        if delay <> want then
+          prop "rotation-chain" (Printf.sprintf "stage %d: at %s.%s the timer for the recorded end %s is armed with %s ns (due %s the end)" k
+                                   (tok_of_z !cur_now) (tok_of_z !cur_ns) (tok_of_z (Stdlib.snd s)) (tok_of_z delay)
+                                   (if Z.leb delay want then "BEFORE" else "AFTER"))
+      end;
       check_eq (Printf.sprintf "timer-span-%d" k) (fun (a, b) -> tok_of_z a ^ "," ^ tok_of_z b) s (b, e);
       if npend <> 1 then begin
         chain_ok := false;
         prop "rotation-chain" (Printf.sprintf "stage %d: %d timers armed after rotate (the next rotation must be scheduled exactly once)" k npend)
       end;
       expect := (meta_time_begin s, meta_time_end s, n) :: !expect;
-      if k < stages then begin cur_now := next_z c; fires := !cur_now :: !fires end
+      if k < stages then begin cur_now := next_z c; cur_ns := next_z c; fires := !cur_now :: !fires end
     done;
     (* the model function the theorem C09_rotation_chain_tiles is about *)
     check_eq "timer-chain" (fun l -> String.concat ";" (List.map (fun (a, b) -> tok_of_z a ^ "," ^ tok_of_z b) l))
